@@ -208,3 +208,186 @@ Proof.
   intros t Ht Hc. apply Ha in Hc. unfold eoi_node in Hc. apply Nat.eqb_eq in Hc. cbv beta in Ht. rewrite Hc in Ht.
   cbn in Ht. repeat (destruct Ht as [Ht|Ht]; [discriminate Ht|]). destruct Ht.
 Qed.
+
+(* ---- the elements tile the text: each starts where the previous one ended, the first at 0, the last ends where
+   the EOI pair sits ---- *)
+Fixpoint tiles (a b : nat) (F : list ttree) : Prop :=
+  match F with
+  | [] => a = b
+  | TNode k _ :: t => t_start k = a /\ tiles (t_end k) b t
+  end.
+Lemma tiles_app a b c F G : tiles a b F -> tiles b c G -> tiles a c (F ++ G).
+Proof.
+  revert a. induction F as [|[k cs] F IH]; intros a HF HG; cbn [tiles app] in *; [subst; exact HG|].
+  destruct HF as [H1 H2]. split; [exact H1|]. apply IH; assumption.
+Qed.
+Definition one_span (pos p' : nat) (F : list ttree) : Prop := exists k cs, F = [TNode k cs] /\ t_start k = pos /\ t_end k = p'.
+Lemma one_span_tiles pos p' F : one_span pos p' F -> tiles pos p' F.
+Proof. intros (k & cs & -> & H1 & H2). cbn [tiles]. split; [exact H1|exact H2]. Qed.
+
+Lemma ref_one f at_ n s pos s' p' F r : nth_error liquid_grammar n = Some r -> is_silent (r_mod r) = false -> at_ <> Atomic ->
+  evf liquid_grammar liquid_ws (S f) at_ false (PRef n) s pos = Some (Some (s', p', F)) -> one_span pos p' F.
+Proof.
+  intros Hn Hs Hat H. cbn [evf] in H. rewrite Hn in H. rewrite Hs in H.
+  replace (negb false && negb (atom_eqb at_ Atomic) && negb false) with true in H by (destruct at_; try reflexivity; congruence).
+  destruct (evf liquid_grammar liquid_ws f (mode_of (r_mod r) at_) false (r_body r) s pos) as [[[[s1 p1] ts]|]|]; try discriminate.
+  inversion H; subst. exists (mkTok n pos p'), ts. repeat split.
+Qed.
+Definition lax_item_t : pe := PAlt (PRef r_Element) (PRef r_InvalidLiquid).
+Lemma item_one f s pos s' p' F : evf liquid_grammar liquid_ws f Compound false lax_item_t s pos = Some (Some (s', p', F)) -> one_span pos p' F.
+Proof.
+  intro H. destruct f as [|f1]; [discriminate|]. unfold lax_item_t in H. cbn [evf] in H.
+  destruct (evf liquid_grammar liquid_ws f1 Compound false (PRef r_Element) s pos) as [[[[s1 p1] t1]|]|] eqn:E1; try discriminate.
+  - inversion H; subst. clear H.
+    (* Element is silent: one of Expression | Tag | Raw *)
+    destruct f1 as [|f2]; [discriminate|]. cbn [evf] in E1.
+    assert (R : nth_error liquid_grammar r_Element = Some (mkRule MSilent (PAlt (PRef r_Expression) (PAlt (PRef r_Tag) (PRef r_Raw))))) by reflexivity.
+    rewrite R in E1. cbn [r_mod r_body mode_of is_silent negb andb atom_eqb] in E1.
+    destruct (evf liquid_grammar liquid_ws f2 Compound false (PAlt (PRef r_Expression) (PAlt (PRef r_Tag) (PRef r_Raw))) s pos) as [[[[s2 p2] t2]|]|] eqn:E2; try discriminate.
+    inversion E1; subst. clear E1.
+    destruct f2 as [|f3]; [discriminate|]. cbn [evf] in E2.
+    destruct (evf liquid_grammar liquid_ws f3 Compound false (PRef r_Expression) s pos) as [[[[s3 p3] t3]|]|] eqn:E3; try discriminate.
+    + inversion E2; subst. destruct f3 as [|f4]; [discriminate|]. eapply (ref_one f4 Compound r_Expression); [reflexivity|reflexivity|discriminate|exact E3].
+    + destruct f3 as [|f4]; [discriminate|]. cbn [evf] in E2.
+      destruct (evf liquid_grammar liquid_ws f4 Compound false (PRef r_Tag) s pos) as [[[[s4 p4] t4]|]|] eqn:E4; try discriminate.
+      * inversion E2; subst. destruct f4 as [|f5]; [discriminate|]. eapply (ref_one f5 Compound r_Tag); [reflexivity|reflexivity|discriminate|exact E4].
+      * destruct f4 as [|f5]; [discriminate|]. eapply (ref_one f5 Compound r_Raw); [reflexivity|reflexivity|discriminate|exact E2].
+  - destruct f1 as [|f2]; [discriminate|]. eapply (ref_one f2 Compound r_InvalidLiquid); [reflexivity|reflexivity|discriminate|exact H].
+Qed.
+Lemma plus_tiles : forall f s pos s' p' F,
+  evf liquid_grammar liquid_ws f Compound false (PPlus lax_item_t) s pos = Some (Some (s', p', F)) -> tiles pos p' F.
+Proof.
+  induction f as [|f IH]; intros s pos s' p' F H; [discriminate|]. cbn [evf] in H.
+  destruct (evf liquid_grammar liquid_ws f Compound false lax_item_t s pos) as [[[[s1 p1] t1]|]|] eqn:E1; try discriminate.
+  pose proof (one_span_tiles _ _ _ (item_one _ _ _ _ _ _ E1)) as T1.
+  destruct (evf liquid_grammar liquid_ws f Compound false (PPlus lax_item_t) s1 p1) as [[[[s3 p3] t3]|]|] eqn:E3; try discriminate.
+  - inversion H; subst. eapply tiles_app; [exact T1|]. eapply IH; exact E3.
+  - inversion H; subst. exact T1.
+Qed.
+Lemma star_tiles f s pos s' p' F :
+  evf liquid_grammar liquid_ws f Compound false (PStar lax_item_t) s pos = Some (Some (s', p', F)) -> tiles pos p' F.
+Proof.
+  intro H. destruct f as [|f1]; [discriminate|]. cbn [evf] in H.
+  destruct (evf liquid_grammar liquid_ws f1 Compound false (PPlus lax_item_t) s pos) as [[[[s1 p1] t1]|]|] eqn:E1; try discriminate.
+  - inversion H; subst. eapply plus_tiles; exact E1.
+  - inversion H; subst. reflexivity.
+Qed.
+Theorem lax_elements_tile f s rest p F :
+  parse_tree liquid_grammar liquid_ws f r_LaxLiquidFile s = Some (Some (rest, p, F)) ->
+  exists body, F = [TNode (mkTok r_LaxLiquidFile 0 p) (body ++ [TNode (mkTok eoi_id p p) []])] /\ tiles 0 p body.
+Proof.
+  unfold parse_tree. intro H. destruct f as [|f1]; [discriminate|]. cbn [evf] in H.
+  assert (R : nth_error liquid_grammar r_LaxLiquidFile =
+              Some (mkRule MCompound (PSeq PSoi (PSeq (PStar (PAlt (PRef r_Element) (PRef r_InvalidLiquid))) PEoi)))) by reflexivity.
+  rewrite R in H. cbn [r_mod r_body mode_of is_silent negb andb atom_eqb] in H.
+  match type of H with match ?x with _ => _ end = _ => destruct x as [[[[s1 p1] ts]|]|] eqn:Hb; try discriminate end.
+  inversion H; subst. clear H.
+  destruct f1 as [|f2]; [discriminate|]. cbn [evf] in Hb.
+  destruct f2 as [|f3]; [discriminate|]. cbn [evf Nat.eqb] in Hb.
+  destruct (evf liquid_grammar liquid_ws f3 Compound false (PStar (PAlt (PRef r_Element) (PRef r_InvalidLiquid))) s 0) as [[[[s2 p2] t2]|]|] eqn:Hstar; try discriminate.
+  destruct f3 as [|f4]; [discriminate|]. cbn [evf orb atom_eqb] in Hb.
+  destruct s2 as [|c s2]; [|discriminate]. cbn [app] in Hb. inversion Hb; subst. clear Hb.
+  exists t2. split; [reflexivity|]. exact (star_tiles _ _ _ _ _ _ Hstar).
+Qed.
+
+(* every text: the parse finishes with elements that tile the whole text, first to last character *)
+From LV Require Import PegPos.
+Theorem elements_tile_the_text s : exists f, forall f', f <= f' ->
+  exists body,
+    parse_tree liquid_grammar liquid_ws f' r_LaxLiquidFile s =
+      Some (Some ([], length s, [TNode (mkTok r_LaxLiquidFile 0 (length s)) (body ++ [TNode (mkTok eoi_id (length s) (length s)) []])])) /\
+    Forall (fun t => In (root t) [r_Expression; r_Tag; r_Raw; r_InvalidLiquid]) body /\
+    tiles 0 (length s) body.
+Proof.
+  destruct (lax_parse_total s) as [f Hf]. exists f. intros f' Hle. destruct (Hf f' Hle) as (p & ts & HP).
+  pose proof (parse_end_is_length _ _ _ _ _ _ _ HP) as Hp. subst p.
+  rewrite parse_tree_flat in HP.
+  destruct (parse_tree liquid_grammar liquid_ws f' r_LaxLiquidFile s) as [[[[rest p'] F]|]|] eqn:HT; try discriminate.
+  cbn [flat_res] in HP. inversion HP; subst. clear HP.
+  destruct (lax_tree_shape _ _ _ _ _ HT) as (body & -> & Hbody).
+  destruct (lax_elements_tile _ _ _ _ _ HT) as (body' & E & Ht).
+  inversion E as [E']. apply app_inj_tail in E' as [<- _].
+  exists body. split; [reflexivity|]. split; [exact Hbody|exact Ht].
+Qed.
+
+(* ---- the source text is exactly the concatenation of its elements' texts ---- *)
+Definition sub (s : str) (a b : nat) : str := firstn (b - a) (skipn a s).
+Definition span_text (s : str) (t : ttree) : str := match t with TNode k _ => sub s (t_start k) (t_end k) end.
+Fixpoint tiles_le (a b : nat) (F : list ttree) : Prop :=
+  match F with
+  | [] => a = b
+  | TNode k _ :: t => t_start k = a /\ a <= t_end k /\ tiles_le (t_end k) b t
+  end.
+Lemma tiles_le_app a b c F G : tiles_le a b F -> tiles_le b c G -> tiles_le a c (F ++ G).
+Proof.
+  revert a. induction F as [|[k cs] F IH]; intros a HF HG; cbn [tiles_le app] in *; [subst; exact HG|].
+  destruct HF as (H1 & H2 & H3). repeat split; auto.
+Qed.
+Lemma tiles_le_bounds a b F : tiles_le a b F -> a <= b.
+Proof. revert a. induction F as [|[k cs] F IH]; intros a H; cbn [tiles_le] in H; [lia|]. destruct H as (H1 & H2 & H3). apply IH in H3. lia. Qed.
+Lemma firstn_plus {A} : forall n m (l : list A), firstn (n + m) l = firstn n l ++ firstn m (skipn n l).
+Proof. induction n as [|n IH]; intros m l; [reflexivity|]. destruct l as [|x l]; [cbn; rewrite firstn_nil; reflexivity|]. cbn [Nat.add firstn skipn app]. rewrite IH. reflexivity. Qed.
+Lemma skipn_skipn' {A} : forall x y (l : list A), skipn x (skipn y l) = skipn (x + y) l.
+Proof. intros x y. revert x. induction y as [|y IH]; intros x l; [rewrite Nat.add_0_r; reflexivity|]. destruct l as [|a l]; [rewrite !skipn_nil; reflexivity|]. replace (x + S y) with (S (x + y)) by lia. cbn [skipn]. apply IH. Qed.
+Lemma sub_split s a m b : a <= m -> m <= b -> sub s a m ++ sub s m b = sub s a b.
+Proof.
+  intros H1 H2. unfold sub. replace (b - a) with ((m - a) + (b - m)) by lia.
+  rewrite firstn_plus, skipn_skipn'. replace (m - a + a) with m by lia. reflexivity.
+Qed.
+Lemma tiles_concat s : forall F a b, tiles_le a b F -> concat (map (span_text s) F) = sub s a b.
+Proof.
+  induction F as [|[k cs] F IH]; intros a b H; cbn [tiles_le map concat span_text] in *.
+  - subst. unfold sub. rewrite Nat.sub_diag. reflexivity.
+  - destruct H as (H1 & H2 & H3). subst a. rewrite (IH _ _ H3). apply sub_split; [exact H2|exact (tiles_le_bounds _ _ _ H3)].
+Qed.
+Lemma sub_all s : sub s 0 (length s) = s.
+Proof. unfold sub. cbn [skipn]. rewrite Nat.sub_0_r. apply firstn_all. Qed.
+
+Lemma evf_span f at_ e s pos s' p' F : evf liquid_grammar liquid_ws f at_ false e s pos = Some (Some (s', p', F)) -> pos <= p'.
+Proof.
+  intro H. pose proof (ev_flat liquid_grammar liquid_ws f at_ false e s pos) as E. rewrite H in E. cbn [flat_res] in E.
+  pose proof (ev_pos _ _ _ _ _ _ _ _ _ _ _ E) as P. pose proof (ev_len liquid_grammar liquid_ws hintf rankf liquid_K liquid_wf _ _ _ _ _ _ _ _ _ E) as L. lia.
+Qed.
+Lemma plus_tiles_le : forall f s pos s' p' F,
+  evf liquid_grammar liquid_ws f Compound false (PPlus lax_item_t) s pos = Some (Some (s', p', F)) -> tiles_le pos p' F.
+Proof.
+  induction f as [|f IH]; intros s pos s' p' F H; [discriminate|]. cbn [evf] in H.
+  destruct (evf liquid_grammar liquid_ws f Compound false lax_item_t s pos) as [[[[s1 p1] t1]|]|] eqn:E1; try discriminate.
+  assert (T1 : tiles_le pos p1 t1).
+  { destruct (item_one _ _ _ _ _ _ E1) as (k & cs & -> & Hs & He). cbn [tiles_le]. pose proof (evf_span _ _ _ _ _ _ _ _ E1). repeat split; auto; lia. }
+  destruct (evf liquid_grammar liquid_ws f Compound false (PPlus lax_item_t) s1 p1) as [[[[s3 p3] t3]|]|] eqn:E3; try discriminate.
+  - inversion H; subst. eapply tiles_le_app; [exact T1|]. eapply IH; exact E3.
+  - inversion H; subst. exact T1.
+Qed.
+(* the text of a template is the concatenation of the texts of its top-level elements, in order *)
+Theorem source_is_the_concatenation_of_its_elements s : exists f, forall f', f <= f' ->
+  exists body,
+    parse_tree liquid_grammar liquid_ws f' r_LaxLiquidFile s =
+      Some (Some ([], length s, [TNode (mkTok r_LaxLiquidFile 0 (length s)) (body ++ [TNode (mkTok eoi_id (length s) (length s)) []])])) /\
+    concat (map (span_text s) body) = s.
+Proof.
+  destruct (lax_parse_total s) as [f Hf]. exists f. intros f' Hle. destruct (Hf f' Hle) as (p & ts & HP).
+  pose proof (parse_end_is_length _ _ _ _ _ _ _ HP) as Hp. subst p.
+  rewrite parse_tree_flat in HP. unfold parse_tree in *.
+  destruct (evf liquid_grammar liquid_ws f' NonAtomic false (PRef r_LaxLiquidFile) s 0) as [[[[rest p'] F]|]|] eqn:HT; try discriminate.
+  cbn [flat_res] in HP. inversion HP; subst. clear HP.
+  (* unfold the top rule as in lax_tree_shape, keeping the star's evaluation *)
+  pose proof HT as H. destruct f' as [|f1]; [discriminate|]. cbn [evf] in H.
+  assert (R : nth_error liquid_grammar r_LaxLiquidFile =
+              Some (mkRule MCompound (PSeq PSoi (PSeq (PStar (PAlt (PRef r_Element) (PRef r_InvalidLiquid))) PEoi)))) by reflexivity.
+  rewrite R in H. cbn [r_mod r_body mode_of is_silent negb andb atom_eqb] in H.
+  match type of H with match ?x with _ => _ end = _ => destruct x as [[[[s1 p1] tsb]|]|] eqn:Hb; try discriminate end.
+  inversion H; subst. clear H.
+  destruct f1 as [|f2]; [discriminate|]. cbn [evf] in Hb.
+  destruct f2 as [|f3]; [discriminate|]. cbn [evf Nat.eqb] in Hb.
+  destruct (evf liquid_grammar liquid_ws f3 Compound false (PStar (PAlt (PRef r_Element) (PRef r_InvalidLiquid))) s 0) as [[[[s2 p2] t2]|]|] eqn:Hstar; try discriminate.
+  destruct f3 as [|f4]; [discriminate|]. cbn [evf orb atom_eqb] in Hb.
+  destruct s2 as [|c s2]; [|discriminate]. cbn [app] in Hb. inversion Hb; subst. clear Hb.
+  exists t2. split; [reflexivity|].
+  assert (T : tiles_le 0 (length s) t2).
+  { cbn [evf] in Hstar.
+    destruct (evf liquid_grammar liquid_ws f4 Compound false (PPlus (PAlt (PRef r_Element) (PRef r_InvalidLiquid))) s 0) as [[[[s3 p3] t3]|]|] eqn:E1; try discriminate.
+    - inversion Hstar; subst. exact (plus_tiles_le _ _ _ _ _ _ E1).
+    - inversion Hstar; subst. reflexivity. }
+  rewrite (tiles_concat s _ _ _ T). apply sub_all.
+Qed.
